@@ -12,7 +12,7 @@ DecAlpha == {"0", "1", "7", "9", "_"}
 HexAlpha == {"0", "1", "9", "a", "F", "_"}
 OctAlpha == {"0", "1", "7", "_"}
 BinAlpha == {"0", "1", "_"}
-Pieces == {"a", "Z", " ", "#", "\\n", "\\t", "\\\\", "\\\"", "\\d", "\\q", "\\0", "\\xz", "\\a", "\\x41", "\\u00e9", "'"}
+Pieces == {"a", "Z", " ", "#", "\\n", "\\t", "\\\\", "\\\"", "\\d", "\\q", "\\0", "\\xz", "\\a", "\\x41", "\\u00e9", "'", "{", "}", "#{1}"}
 NameAlpha == {"a", "Z", "_", "1", "?", "!"}
 KwNames == UNION {{r \o <<"s">>, r \o <<"_">>, r \o <<"1">>, <<"x">> \o r, <<"_">> \o r, r \o <<"?">>, r \o <<"!">>, r,
                    r \o <<"f", "y">>, <<"e", "l">> \o r} : r \in Reserved}
@@ -25,7 +25,8 @@ Init ==
   \/ kind = "oct" /\ e = 0 /\ cs \in (SeqsUpTo(OctAlpha, MaxDigits - 1) \ {<<>>})
   \/ kind = "bin" /\ e = 0 /\ cs \in (SeqsUpTo(BinAlpha, MaxDigits) \ {<<>>})
   \/ kind = "exp" /\ e \in -4..20 /\ cs \in (SeqsUpTo({"0", "1", "5", "9"}, 3) \ {<<>>})
-  \/ kind \in {"str", "raw"} /\ e = 0 /\ cs \in SeqsUpTo(Pieces, MaxPieces)
+  \/ kind = "raw" /\ e = 0 /\ cs \in SeqsUpTo(Pieces, MaxPieces)
+  \/ kind = "str" /\ e = 0 /\ cs \in {ps \in SeqsUpTo(Pieces, MaxPieces) : ~OpensInterpolation(ps)}
   \/ kind = "name" /\ e = 0 /\ cs \in ((SeqsUpTo(NameAlpha, MaxName) \ {<<>>}) \cup KwNames)
   \/ \E r \in 1..Len(Extra) : kind = Extra[r].kind /\ cs = Extra[r].cs /\ e = Extra[r].e
 Next == UNCHANGED vars
